@@ -51,8 +51,6 @@ func init() {
 		}
 		return ""
 	}
-	kinds["death"] = nil
-	delete(kinds, "death")
 	register(&PropDef{
 		ID:       "C03",
 		Title:    "no argument makes the library panic",
